@@ -97,7 +97,7 @@ def _frame(rng, n, allow_inf):
 
 
 def _gen_spec(rng, last):
-    kinds = ["sparse", "sparse", "bin", "edges", "centers", "thresholds"]
+    kinds = ["sparse", "sparse", "bin", "edges", "centers", "thresholds", "fraction", "cut"]
     if last:
         kinds += ["maximize", "minimize", "average", "deviate", "sum", "bag", "fraction", "cut"]
     k = rng.choice(kinds)
@@ -214,7 +214,11 @@ def run_case(i, rng, tier):
                 if c == "b":
                     sl.append({})
                 elif c == "t":
-                    sl.append({"binWidth": float(rng.choice([D30, 7 * D30 // 30, 10 * D30])), "origin": float(1.5e18)})
+                    if idx == len(cols) - 1 and rng.random() < 0.4:
+                        # aggregating a timestamp column (ns since 1970, ~1.6e18 each): sums far beyond 2**63
+                        sl.append(rng.choice([{"sum": True}, {"average": True}, {"minimize": True}, {"maximize": True}, {"deviate": True}]))
+                    else:
+                        sl.append({"binWidth": float(rng.choice([D30, 7 * D30 // 30, 10 * D30])), "origin": float(1.5e18)})
                 else:
                     sp1 = _gen_spec(rng, last=(idx == len(cols) - 1))
                     if ("fraction" in sp1 or "cut" in sp1) and c in ("x", "y"):
